@@ -15,6 +15,7 @@ from mc.env import SeqGenerator
 
 PROPERTY = "C05"
 LEVEL = "model_checking"
+ISOLATE_CASES = True     # every case starts from a pristine process
 ENGINES = ["E3-explicit-state-history-search", "E2-basis-exhaustion"]
 TECHNIQUE = ("explicit-state breadth-first search over operation histories on the live screen object "
              "(canonical hash of the whole object + global RNG + module globals), invariants on every "
